@@ -911,6 +911,9 @@ impl<'a, C: MlsConfig> Hist<'a, C> {
         let th_membership_key = self.w.group(c).verif_key_schedule()[1].clone();
         let th_context = mls_rs::mls_rs_codec::MlsEncode::mls_encode_to_vec(self.w.group(c).context()).unwrap_or_default();
         let th_suite = self.w.members[c].setup.suite;
+        // the committer's side of the `eks` row (epoch secrets of a path-less commit recomputed by the key-schedule model)
+        let eks_before = crate::eks::before(self.w.group(c));
+        let eks_opener = th_opener.clone();
         // abstract bundle for the proposal-filter model (C10): cached by-reference proposals in bundle order,
         // then the by-value ones in the order the builder receives them
         let cached = self.w.group(c).verif_cached_proposals_in_bundle_order();
@@ -1074,6 +1077,18 @@ impl<'a, C: MlsConfig> Hist<'a, C> {
                     }
                 }
             }
+            if let Some(op) = &eks_opener {
+                let vals = crate::eks::PskValues { external: self.w.psks.clone(), resumption: Default::default() };
+                match crate::eks::row(&eks_before, op, &self.w.msgs[cmi].msg, self.w.group(c), &vals) {
+                    crate::eks::Row::Row(q, a) => {
+                        self.rep.cover.insert(format!("eks:psks={}", q.split(' ').nth(7).unwrap_or("?")));
+                        rows.push((q, a));
+                    }
+                    crate::eks::Row::Skip(why) => {
+                        self.rep.cover.insert(format!("eks-skip:{}", why.split(' ').take(4).collect::<Vec<_>>().join("-")));
+                    }
+                }
+            }
             for &mi in &round_props {
                 let from_member = active.iter().any(|&i| self.w.members[i].setup.name == self.w.msgs[mi].from);
                 let pb = self.w.msgs[mi].msg.to_bytes().unwrap_or_default();
@@ -1091,6 +1106,7 @@ impl<'a, C: MlsConfig> Hist<'a, C> {
         let mut e_rm: Vec<u32> = vec![];
         let mut e_up: Vec<(u32, usize, usize, usize)> = vec![];
         let mut e_add: Vec<(usize, usize, usize)> = vec![];
+        self.w.last_add_init_keys.clear();
         if let Some(CommitEffect::NewEpoch(ne)) = cdesc.as_ref().map(|d| &d.effect) {
             for p in &ne.applied_proposals {
                 match &p.proposal {
@@ -1103,6 +1119,9 @@ impl<'a, C: MlsConfig> Hist<'a, C> {
                     mls_rs::group::proposal::Proposal::Add(_) => {
                         if let Some((id, hp, sg)) = mls_rs::verif::proposal::leaf_keys(&p.proposal) {
                             e_add.push((self.w.stamps.of(&id), self.w.stamps.of(&hp), self.w.stamps.of(&sg)));
+                        }
+                        if let Some(k) = mls_rs::verif::proposal::init_key(&p.proposal) {
+                            self.w.last_add_init_keys.push(k);
                         }
                     }
                     _ => {}
@@ -1541,6 +1560,7 @@ impl<'a, C: MlsConfig> Hist<'a, C> {
         let joiner_leaves: Vec<u32> = joiners.iter().map(|&j| self.leaf_of(j)).collect();
         let mut path_recipients: Vec<usize> = vec![];
         let mut welcome_recipients = 0usize;
+        let mut welcome_keys: Vec<Vec<u8>> = vec![];
         for (pk, info) in seals {
             let is_welcome = info.windows(7).any(|w| w == b"Welcome");
             let is_path = info.windows(14).any(|w| w == b"UpdatePathNode");
@@ -1560,6 +1580,21 @@ impl<'a, C: MlsConfig> Hist<'a, C> {
                 if stamp.map(|s| before_keys.contains(&s) || after_key_pos.contains_key(&s)).unwrap_or(false) {
                     self.fail("C02", format!("commit m{cmi} by {cname} sealed joiner secrets to a tree key instead of a key-package init key"));
                 }
+                // two-sided: the recipient is the init key of a key package this very commit adds
+                if !self.w.last_add_init_keys.iter().any(|k| k == pk) {
+                    self.fail("C02", format!("commit m{cmi} by {cname} sealed joiner secrets to a key that is not the init key of an added key package"));
+                }
+                welcome_keys.push(pk.clone());
+            } else {
+                // every HPKE encryption while a commit is built is a path secret or a Welcome secret
+                self.fail("C02", format!("commit m{cmi} by {cname} made an HPKE encryption with an unexpected context label"));
+            }
+        }
+        // ... and every added key package got its group secrets (sealed exactly once)
+        for k in self.w.last_add_init_keys.clone() {
+            let n = welcome_keys.iter().filter(|x| **x == k).count();
+            if n != 1 {
+                self.fail("C02", format!("commit m{cmi} by {cname}: the group secrets were sealed {n} times to the init key of an added key package"));
             }
         }
         let _ = welcome_recipients;
